@@ -58,14 +58,24 @@ def canonical_fields(program, ctx, rid):
             txt = ast.unparse(f)
             hexy = False
             for c in ast.walk(f):
+                # all(ch in "<lower hex>" for ch in p0)
                 if isinstance(c, ast.Call) and call_name(c) == "all" and c.args and isinstance(c.args[0], ast.GeneratorExp):
                     t = c.args[0].elt
                     if isinstance(t, ast.Compare) and isinstance(t.ops[0], ast.In) and isinstance(t.comparators[0], ast.Constant) and isinstance(t.comparators[0].value, str) and set(t.comparators[0].value) <= LOWER_HEX and dotted(c.args[0].generators[0].iter) == p0:
                         hexy = True
+                # for ch in p0: if ch not in "<lower hex>": return False
+                if isinstance(c, ast.For) and dotted(c.iter) == p0 and isinstance(c.target, ast.Name):
+                    for st in c.body:
+                        if isinstance(st, ast.If) and isinstance(st.test, ast.Compare) and isinstance(st.test.ops[0], ast.NotIn) and dotted(st.test.left) == c.target.id \
+                                and isinstance(st.test.comparators[0], ast.Constant) and isinstance(st.test.comparators[0].value, str) and set(st.test.comparators[0].value) <= LOWER_HEX \
+                                and any(isinstance(r, ast.Return) and isinstance(r.value, ast.Constant) and r.value.value is False for r in st.body):
+                            hexy = True
                 if isinstance(c, ast.Call) and call_name(c).endswith("fullmatch") and c.args and isinstance(c.args[0], ast.Constant) and re.fullmatch(r"\[0-9a-f\](\{\d+\}|\+|\*)?", str(c.args[0].value)):
                     hexy = True
             rets = [r for r in walk_no_nested(f) if isinstance(r, ast.Return)]
-            if hexy and rets and "isinstance" in txt and all(r.value is not None for r in rets):
+            # no early `return True`: every truthy-constant return must be the last statement
+            early_true = [r for r in rets if isinstance(r.value, ast.Constant) and r.value.value is True and r is not f.body[-1]]
+            if hexy and rets and "isinstance" in txt and all(r.value is not None for r in rets) and not early_true:
                 helpers[f.name] = "hex"
     proven = {}
 
@@ -331,8 +341,24 @@ def rule_insert_values(program, ctx, prop, rid):
         return
     ev = "event"
     got = {}
+    from ..lib import expand_aliases
+
+    keywords = []
     for k in vals.keywords:
-        v = k.value
+        if k.arg is None:
+            # .values(**row_values) with row_values a dict display bound once
+            d = expand_aliases(ae, k.value)
+            if isinstance(d, ast.Dict) and all(isinstance(x, ast.Constant) for x in d.keys):
+                keywords += [ast.keyword(arg=x.value, value=y) for x, y in zip(d.keys, d.values)]
+            elif isinstance(d, ast.Call) and call_name(d) == "dict":
+                keywords += list(d.keywords)
+            else:
+                keywords.append(k)
+        else:
+            keywords.append(k)
+    for k in keywords:
+        v = expand_aliases(ae, k.value)
+        k = ast.keyword(arg=k.arg, value=v)
         src = ast.unparse(v)
         allowed = {
             "id": {f"{ev}.id_bytes", f"bytes.fromhex({ev}.id)"},
@@ -341,9 +367,9 @@ def rule_insert_values(program, ctx, prop, rid):
         }.get(k.arg, {f"{ev}.{k.arg}"})
         got[k.arg] = src
         if src in allowed:
-            ctx.ok(rid, k.value, f"INSERT {k.arg} = {src}")
+            ctx.ok(rid, vals, f"INSERT {k.arg} = {src}")
         else:
-            ctx.bad(finding_at(prop, rid, k.value, f"column `{k.arg}` is stored as `{src}`: not the event's own field through a reversible codec - what is served later differs from what was accepted and signed", text=k.arg))
+            ctx.bad(finding_at(prop, rid, vals, f"column `{k.arg}` is stored as `{src}`: not the event's own field through a reversible codec - what is served later differs from what was accepted and signed", text=k.arg))
     if set(got) != set(EVENT_COLS):
         ctx.bad(finding_at(prop, rid, vals, f"INSERT covers {sorted(got)}; the events table has {sorted(EVENT_COLS)}", text="columns"))
 
